@@ -50,7 +50,9 @@ def run(tier):
         pt.CONSTS = K
         cases = fp.small_cases(t["small"], lib.seed(), K) + fp.split_cases(t["split"], lib.seed(), K)
         big = fp.big_cases(tier, lib.seed(), K) if t["big"] else []
-        rec = lib.pmap(fp.record, big + cases, chunksize=1)
+        rec = []
+        for r in lib.pmap(fp.record, big + cases, chunksize=1):
+            rec += r if isinstance(r, list) else [r]          # a multi-model splitter run yields one case per model
         with ThreadPoolExecutor(max_workers=1) as bg:
             fut = bg.submit(_model_checks, t, sc)
             res = lib.trace_validate("Trace_FitPdb", "Trace_FitPdb.cfg", rec, sc,
@@ -102,7 +104,11 @@ def replay(doc):
     with lib.Scratch("c10r") as sc:
         pt.CONSTS = pt.constants(sc)
         base = {k: case[k] for k in ("id", "kind", "gen", "fmt", "atoms", "spec", "keep") if k in case}
+        if case["kind"] == "split" and "-m" in case["id"]:
+            base["id"] = case["id"].rsplit("-m", 1)[0]             # one case of a multi-model splitter run
         rec = fp.record(base)
+        if isinstance(rec, list):
+            rec = [r for r in rec if r["id"] == case["id"]][0]
         res = lib.trace_validate("Trace_FitPdb", "Trace_FitPdb.cfg", [rec], sc, chunks=1)
         rep.add_trace(res, {rec["id"]: rec}, "C10")
         rep.cov["samples"] = [_brief(rec)]
